@@ -244,3 +244,112 @@ impl<R: Seek> Seek for CountingReader<R> {
         self.inner.seek(pos)
     }
 }
+
+// ---------------------------------------------------------------------------------------------
+// CPU-time progress watchdog (termination monitor where no logical-step hook exists)
+// ---------------------------------------------------------------------------------------------
+//
+// Native code (libbz2) and loops that neither read nor allocate cannot be bounded by the counting
+// reader.  Each worker publishes the case it is running; a watchdog thread reads the *CPU time of
+// that thread* (not wall time, so machine load does not matter) and, when one case has consumed
+// more than the budget, reports it as "does not terminate" with the case's input as witness.
+
+pub struct CaseSlot {
+    pub op: String,
+    pub family: String,
+    pub input: Vec<u8>,
+    pub cpu_start_ns: u64,
+    pub active: bool,
+}
+
+struct Registered {
+    clock: libc::clockid_t,
+    slot: std::sync::Arc<std::sync::Mutex<CaseSlot>>,
+}
+
+static REGISTRY: std::sync::Mutex<Vec<Registered>> = std::sync::Mutex::new(Vec::new());
+pub static MAX_CASE_CPU_MS: std::sync::atomic::AtomicU64 = std::sync::atomic::AtomicU64::new(0);
+
+thread_local! {
+    static MY_SLOT: RefCell<Option<(libc::clockid_t, std::sync::Arc<std::sync::Mutex<CaseSlot>>)>> = const { RefCell::new(None) };
+}
+
+fn clock_ns(clock: libc::clockid_t) -> u64 {
+    let mut ts = libc::timespec { tv_sec: 0, tv_nsec: 0 };
+    // SAFETY: plain syscall writing into a local timespec.
+    let rc = unsafe { libc::clock_gettime(clock, &mut ts) };
+    if rc != 0 {
+        return 0;
+    }
+    ts.tv_sec as u64 * 1_000_000_000 + ts.tv_nsec as u64
+}
+
+/// Publish the case this thread is about to run.
+pub fn case_begin(op: &str, family: &str, input: &[u8]) {
+    MY_SLOT.with(|s| {
+        let mut s = s.borrow_mut();
+        if s.is_none() {
+            let mut clock: libc::clockid_t = 0;
+            // SAFETY: pthread_self() is always valid for the calling thread.
+            let rc = unsafe { libc::pthread_getcpuclockid(libc::pthread_self(), &mut clock) };
+            if rc != 0 {
+                return;
+            }
+            let slot = std::sync::Arc::new(std::sync::Mutex::new(CaseSlot {
+                op: String::new(),
+                family: String::new(),
+                input: Vec::new(),
+                cpu_start_ns: 0,
+                active: false,
+            }));
+            if let Ok(mut r) = REGISTRY.lock() {
+                r.push(Registered { clock, slot: slot.clone() });
+            }
+            *s = Some((clock, slot));
+        }
+        if let Some((clock, slot)) = s.as_ref() {
+            if let Ok(mut g) = slot.lock() {
+                g.op.clear();
+                g.op.push_str(op);
+                g.family.clear();
+                g.family.push_str(family);
+                g.input.clear();
+                g.input.extend_from_slice(&input[..input.len().min(1 << 20)]);
+                g.cpu_start_ns = clock_ns(*clock);
+                g.active = true;
+            }
+        }
+    });
+}
+
+pub fn case_end() {
+    MY_SLOT.with(|s| {
+        if let Some((clock, slot)) = s.borrow().as_ref() {
+            if let Ok(mut g) = slot.lock() {
+                let used = clock_ns(*clock).saturating_sub(g.cpu_start_ns) / 1_000_000;
+                MAX_CASE_CPU_MS.fetch_max(used, std::sync::atomic::Ordering::Relaxed);
+                g.active = false;
+            }
+        }
+    });
+}
+
+/// Start the watchdog.  `on_stuck(op, family, input, cpu_seconds)` is called once for the first
+/// case that exceeds `budget_s` of CPU time; it is expected to report and exit the process.
+pub fn start_cpu_watchdog(budget_s: u64, on_stuck: impl Fn(&str, &str, &[u8], u64) + Send + 'static) {
+    std::thread::spawn(move || loop {
+        std::thread::sleep(std::time::Duration::from_millis(500));
+        let Ok(reg) = REGISTRY.lock() else { continue };
+        for r in reg.iter() {
+            let Ok(g) = r.slot.lock() else { continue };
+            if !g.active {
+                continue;
+            }
+            let used_ns = clock_ns(r.clock).saturating_sub(g.cpu_start_ns);
+            if used_ns > budget_s * 1_000_000_000 {
+                on_stuck(&g.op, &g.family, &g.input, used_ns / 1_000_000_000);
+                return;
+            }
+        }
+    });
+}
